@@ -20,8 +20,10 @@ for d in /verif/seeded/*${pat}*/; do
     want=1
   fi
   res=""
+  tag=$$
+  (cd /verif && printf '%s\n' $props | xargs -P 10 -I{} sh -c '/venv/bin/python -m agilint check {} --tier quick > /tmp/seedrun_'$tag'_{}.out 2>&1; echo $? > /tmp/seedrun_'$tag'_{}.rc')
   for p in $props; do
-    (cd /verif && /venv/bin/python -m agilint check "$p" --tier quick > /tmp/seedrun.out 2>&1); rc=$?
+    rc=$(cat /tmp/seedrun_${tag}_$p.rc); rm -f /tmp/seedrun_${tag}_$p.rc /tmp/seedrun_${tag}_$p.out
     res="$res $p=$rc"
     if [ "$rc" != "$want" ]; then bad=$((bad+1)); res="$res(!)"; fi
   done
